@@ -63,14 +63,14 @@ structure Store (Key Id Hash : Type) where
 
 inductive Rej
   | height | prev | prevHeight | ts | json | cfgHeader | noCfg | noMap | fewBk | nonMember | fewMembers | dupBk
-  | sigCount | sigData | sigFail | panic | blockHeight | blockRoot
+  | sigCount | sigData | sigFail | panic | blockHeight | blockPrev | blockRoot
   deriving DecidableEq, Repr
 
 def Rej.name : Rej → String
   | .height => "height" | .prev => "prev" | .prevHeight => "prevheight" | .ts => "ts" | .json => "json"
   | .cfgHeader => "cfgheader" | .noCfg => "nocfg" | .noMap => "nomap" | .fewBk => "fewbk" | .nonMember => "nonmember"
   | .fewMembers => "fewmembers" | .dupBk => "dupbk" | .sigCount => "sigcount" | .sigData => "sigdata"
-  | .sigFail => "sigfail" | .panic => "panic" | .blockHeight => "blockheight" | .blockRoot => "blockroot"
+  | .sigFail => "sigfail" | .panic => "panic" | .blockHeight => "blockheight" | .blockPrev => "blockprev" | .blockRoot => "blockroot"
 
 /-! ## `signature.VerifyMultiSignature` with the reason of a rejection (same loop as `SigCheck.vmsLoop`) -/
 
@@ -204,6 +204,7 @@ def setIndex {α : Type} (l : List α) (k : Nat) (a : α) : List α := if k < l.
 /-- `AddBlock` for a block with no transaction (the sync path for blocks; `SubmitBlock` runs the same steps).  Returns the
 store afterwards and the verdict (`none` = nil error).  `rootOK`: `header.BlockRoot` equals the ledger's block root.
 * a block at or below the committed height: `return nil`, nothing happens;
+* `PrevBlockHash != GetCurrentBlockHash()` → error (the committed block of height `blockHeight` is `hdrs[blockHeight]`);
 * `verifyHeader` - the same function `AddHeader` runs, on the same store: header sync may be ahead, so the height of the
   block may already be indexed (with another header);
 * `saveBlock` → `submitBlock`: the block-root comparison, then the commit (`setHeaderIndex` overwrites the index entry).
@@ -214,6 +215,7 @@ def addBlock {Key Sig Id Hash : Type} [DecidableEq Id] [DecidableEq Hash] (v : V
     (st : Store Key Id Hash) (h : Hdr Key Id Hash) (rootOK : Bool) : Store Key Id Hash × Option Rej :=
   if h.height ≤ st.blockHeight then (st, none)
   else if h.height ≠ st.blockHeight + 1 then (st, some .blockHeight)
+  else if (st.hdrs[st.blockHeight]?).map (·.hash) ≠ some h.prev then (st, some .blockPrev)
   else match verifyHeader v parseSig vf idOf st h with
     | .error e => (st, some e)
     | .ok st1 =>
